@@ -172,6 +172,9 @@ def make_tree(w, spec_objs, oid, origin, fresh_like=None):
         for k, sid in enumerate(so['sub']):
             subs['ABCDEFGH'[k] + str(sid)] = make_tree(w, spec_objs, sid, origin)
         real = w.K['linker'](subs)
+    # an unregistered instance entry holding a tuple with mutable members: copies must not share it either (the identity
+    # scan walks into tuples); it is not an attribute of the container, so the specification's projection ignores it
+    real.__dict__['_v_probe'] = ([1, 2], {'k': np.zeros(2)}, (np.ones(1), [3]))
     w.objs[oid] = real
     w.origin[oid] = origin
     return real
